@@ -37,20 +37,25 @@ Definition tokens_of (sep : option str) (c : mc_cell) : option (list pval) :=
   | _, _ => None
   end.
 
-(* the set of category indices of a cell, ascending: those k whose category
-   cats[k] is one of the cell's tokens; [-1] for a missing cell *)
+(* the category positions k whose category cats[k] is one of the tokens, ascending *)
+Definition canon_idx (cats toks : list pval) : list nat :=
+  filter (fun k => match nth_error cats k with
+                   | Some cat => existsb (pval_eqb cat) toks
+                   | None => false
+                   end) (seq 0 (length cats)).
+
+(* the set of category indices of a cell, ascending; [-1] for a missing cell;
+   None when the cell does not fit the separator configuration (the mapper raises) *)
 Definition canon_multi (cats : list pval) (sep : option str) (c : mc_cell) : option ecell :=
   match c with
   | MCMissing => Some [SInt (-1)]
-  | _ =>
-      toks <- tokens_of sep c ;;
-      Some (map (fun k => SInt (Z.of_nat k))
-                (filter (fun k => match nth_error cats k with
-                                  | Some cat => existsb (pval_eqb cat) toks
-                                  | None => false
-                                  end)
-                        (seq 0 (length cats))))
+  | _ => toks <- tokens_of sep c ;; Some (map (fun k => SInt (Z.of_nat k)) (canon_idx cats toks))
   end.
+
+(* a cell none of whose tokens is the integer -1 (the mapper's own marker for
+   a missing cell); always the case for delimiter-joined strings *)
+Definition tokens_ok (sep : option str) (c : mc_cell) : Prop :=
+  forall toks, tokens_of sep c = Some toks -> ~ In (VInt (-1)) toks.
 
 Definition canon_seq (c : seq_cell) : option ecell :=
   match c with
